@@ -1,16 +1,25 @@
 import OZ.DrvUtil
-import OZ.Model.MulDiv
+import OZ.Model.MulDivMon
 /-
 Driver for C12. Ops:
   md128 v=<plain|checked> r=<floor|ceil|trunc> x=.. y=.. d=..
   md256 v=<plain|checked> r=<..> x=.. y=.. d=..
   wad f=<mul|div|ratio|fromint|mulint|divint|add|sub|cpow|pow> a=.. b=..
 Observation: `ok <v>` | `none` | `panic`.
-Monitor (model-independent): the implementation's answer must equal the exact
-specification `spec128` (for I256: whenever the product fits in 256 bits).
+
+`op` runs the model (`OZ.MulDiv.run` on the parsed op line). `mon` never does: it only parses
+(`parseOp`, `parseObs`), calls the monitor core `OZ.MulDiv.Mon.checkCore` (model-independent: the
+implementation's answer must equal the exact specification `spec128`; for I256 whenever the
+product fits in 256 bits; `pow` must agree with the implementation's own `checked_pow` answer for
+the same operands) and renders the alarm. The core is proved sound in OZ/Props/C12Mon.lean.
+
+String-level parts that stay here and are NOT covered by the soundness theorem: `parseOp`,
+`parseObs` (in particular `(parseObs r.toString) = ⟨some r, true⟩` relies on
+`String.toInt? (toString v) = some v`) and `render`. An op line that does not parse is ignored by
+the monitor (the model side prints `bad-op` for it, which the correspondence diff reports).
 -/
 namespace OZ.Drv.C12
-open OZ.MulDiv OZ.Drv
+open OZ.MulDiv OZ.MulDiv.Mon OZ.Drv
 
 def rounding? : Option String → Option Rounding
   | some "floor" => some .floor
@@ -18,68 +27,67 @@ def rounding? : Option String → Option Rounding
   | some "trunc" => some .trunc
   | _ => none
 
-def specWadPow (a : Int) (n : Nat) : Res := wadCheckedPow a n
+def checked? : Option String → Option Bool
+  | some "plain" => some false
+  | some "checked" => some true
+  | _ => none
 
-def evalOp (ws : List String) : Option Res :=
+def wadFn? : Option String → Option WadFn
+  | some "mul" => some .mul
+  | some "div" => some .div
+  | some "ratio" => some .ratio
+  | some "fromint" => some .fromint
+  | some "mulint" => some .mulint
+  | some "divint" => some .divint
+  | some "add" => some .add
+  | some "sub" => some .sub
+  | some "cpow" => some .cpow
+  | some "pow" => some .pow
+  | _ => none
+
+def parseOp (ws : List String) : Option Op :=
   match ws with
   | "md128" :: rest => do
     let rd ← rounding? (kv? rest "r")
     let x ← kvInt? rest "x"; let y ← kvInt? rest "y"; let d ← kvInt? rest "d"
-    match kv? rest "v" with
-    | some "plain" => some (mulDiv128 rd x y d)
-    | some "checked" => some (checkedMulDiv128 rd x y d)
-    | _ => none
+    let c ← checked? (kv? rest "v")
+    pure (.md128 c rd x y d)
   | "md256" :: rest => do
     let rd ← rounding? (kv? rest "r")
     let x ← kvInt? rest "x"; let y ← kvInt? rest "y"; let d ← kvInt? rest "d"
-    match kv? rest "v" with
-    | some "plain" => some (mulDiv256 rd x y d)
-    | some "checked" => some (checkedMulDiv256 rd x y d)
-    | _ => none
+    let c ← checked? (kv? rest "v")
+    pure (.md256 c rd x y d)
   | "wad" :: rest => do
     let a ← kvInt? rest "a"; let b ← kvInt? rest "b"
-    match kv? rest "f" with
-    | some "mul" => some (wadCheckedMul a b)
-    | some "div" => some (wadCheckedDiv a b)
-    | some "ratio" => some (wadFromRatio a b)
-    | some "fromint" => some (wadFromInteger a)
-    | some "mulint" => some (wadCheckedMulInt a b)
-    | some "divint" => some (wadCheckedDivInt a b)
-    | some "add" => some (wadCheckedAdd a b)
-    | some "sub" => some (wadCheckedSub a b)
-    | some "cpow" => some (wadCheckedPow a b.toNat)
-    | some "pow" => some (wadPow a b.toNat)
-    | _ => none
+    let f ← wadFn? (kv? rest "f")
+    pure (.wad f a b)
   | _ => none
 
-/-- The specification answer for an op, independent of the coded algorithm; `none` when
-the property does not constrain the outcome (I256 with a product outside 256 bits). -/
-def specOp (ws : List String) : Option Res :=
-  match ws with
-  | "md128" :: rest => do
-    let rd ← rounding? (kv? rest "r")
-    let x ← kvInt? rest "x"; let y ← kvInt? rest "y"; let d ← kvInt? rest "d"
-    match kv? rest "v" with
-    | some "plain" => some (spec128 .panic rd x y d)
-    | some "checked" => some (spec128 .none rd x y d)
-    | _ => none
-  | "md256" :: rest => do
-    let rd ← rounding? (kv? rest "r")
-    let x ← kvInt? rest "x"; let y ← kvInt? rest "y"; let d ← kvInt? rest "d"
-    if ¬ in256 (x * y) then none else
-    let q := exactQ rd x y d
-    match kv? rest "v" with
-    | some "plain" => some (if d = 0 then .panic else if in256 q then .ok q else .panic)
-    | some "checked" => if d = 0 then some .none else if in256 q then some (.ok q) else none
-    | _ => none
-  | "wad" :: rest => do
-    let a ← kvInt? rest "a"; let b ← kvInt? rest "b"
-    match kv? rest "f" with
-    | some "mul" => some (spec128 .none .trunc a b WAD)
-    | some "div" => some (spec128 .none .trunc a WAD b)
-    | some "ratio" => some (spec128 .panic .trunc a WAD b)
-    | _ => none
-  | _ => none
+/-- model side: the model's answer to an op line -/
+def evalOp (ws : List String) : Option Res := (parseOp ws).map OZ.MulDiv.run
+
+/-! ### monitor -/
+
+/-- lenient reading of an observation line plus the flag "the line is exactly the canonical
+rendering of that reading" -/
+def parseObs (obs : String) : Obs :=
+  let r : Option Res :=
+    match words obs with
+    | ["ok", v] => v.toInt?.map Res.ok
+    | ["none"] => some Res.none
+    | _ => some Res.panic
+  { r := r, canon := match r with | some x => decide (x.toString = obs) | none => false }
+
+def render (opl obs : String) : Alarm → String
+  | .spec want => s!"spec={want.toString} impl={obs} op={opl}"
+  | .pow cpow => s!"pow={obs} but checked_pow={cpow.toString} op={opl}"
+
+def check (g : Option Ghost) (opl obs : String) : Option Ghost × Option String :=
+  match parseOp (words opl) with
+  | some op =>
+    let res := checkCore g op (parseObs obs)
+    (res.1, res.2.map (render opl obs))
+  | none => (g, none)
 
 def machine : Machine where
   σ := Unit
@@ -88,31 +96,9 @@ def machine : Machine where
     match evalOp (words line) with
     | some r => ((), r.toString)
     | none => ((), "bad-op")
-  μ := Option Res   -- last `wad cpow` answer of the implementation, for pow ⇔ checked_pow
+  μ := Option Ghost   -- the implementation's answer to the latest `wad cpow` line, with operands
   minit := fun _ => none
-  mon := fun st opl obs =>
-    let ws := words opl
-    let st' : Option Res :=
-      if ws.head? = some "wad" ∧ kv? ws "f" = some "cpow" then
-        (match words obs with
-         | ["ok", v] => v.toInt?.map Res.ok
-         | ["none"] => some Res.none
-         | _ => some Res.panic)
-      else st
-    let fail1 : Option String :=
-      match specOp ws with
-      | some r => if r.toString = obs then none else some s!"spec={r.toString} impl={obs} op={opl}"
-      | none => none
-    -- pow fails exactly when checked_pow returns no value (the harness issues cpow then pow
-    -- on the same operands)
-    let fail2 : Option String :=
-      if ws.head? = some "wad" ∧ kv? ws "f" = some "pow" then
-        match st with
-        | some r => if r.orPanic.toString = obs then none
-                    else some s!"pow={obs} but checked_pow={r.toString} op={opl}"
-        | none => none
-      else none
-    (st', fail1.orElse (fun _ => fail2))
+  mon := check
 
 end OZ.Drv.C12
 
